@@ -2,6 +2,7 @@ package stdlib
 
 import (
 	"fmt"
+	"math"
 	"regexp"
 	"sort"
 	"strings"
@@ -407,6 +408,13 @@ var IndentFunc = function.New(&function.Spec{
 			return cty.UnknownVal(cty.String), function.NewArgErrorf(0, "the number of spaces must not be negative")
 		}
 		data := args[1].AsString()
+		lines := strings.Count(data, "\n")
+		if lines == 0 {
+			return cty.StringVal(data), nil
+		}
+		if spaces > (math.MaxInt-len(data))/lines {
+			return cty.UnknownVal(cty.String), function.NewArgErrorf(0, "the result would be too long")
+		}
 		pad := strings.Repeat(" ", spaces)
 		return cty.StringVal(strings.Replace(data, "\n", "\n"+pad, -1)), nil
 	},
